@@ -136,7 +136,7 @@ PROPS = {
         "level": "exploration",
         "interpreters": ("3.7", "3.8", "3.9", "3.10", "3.11"),
         "post": "c07_schema",
-        "rule": "every value of S-CONST (see C08) x position {instruction operand, unreferenced table entry, operand of a nested function} and every string of a 19-string list (empty, non-ASCII, astral, lone surrogates, NUL, tag lookalikes) x position {name, local, parameter, cell, free variable, co_name, co_filename, docstring, class name}, each built as a real code object (decoded and normalized) and as hand-built CodeData; 4 synthetic CodeData exercising every schema definition; every code object (decoded and normalized) of program stratum Pa (optimize 0) as whole-module documents (thorough: every quick-tier stratum of the code-object checks (no stdlib corpus, no depth-2 expression, triple or depth-3 strata), every nested object on its own too). For each: strict-JSON walker, independent Draft-7 mini validator (cross-checked in the driver against jsonschema.Draft7Validator on a deterministic subset + negative controls), json and json-as-UTF-8 (and orjson on 3.11) serialize/parse cycles, from_json_data == original (strict key, NaNs identified), hashable, to_code identical.",
+        "rule": "every value of S-CONST (see C08) x position {instruction operand, unreferenced table entry, operand of a nested function} and every string of a 19-string list (empty, non-ASCII, astral, lone surrogates, NUL, tag lookalikes) x position {name, local, parameter, cell, free variable, co_name, co_filename, docstring, class name, file name of a module and its nested function}, each built as a real code object (decoded and normalized) and as hand-built CodeData; 4 synthetic CodeData exercising every schema definition; every code object (decoded and normalized) of program stratum Pa (optimize 0) as whole-module documents (thorough: every quick-tier stratum of the code-object checks (no stdlib corpus, no depth-2 expression, triple or depth-3 strata), every nested object on its own too). For each: strict-JSON walker, independent Draft-7 mini validator (cross-checked in the driver against jsonschema.Draft7Validator on a deterministic subset + negative controls), json and json-as-UTF-8 (and orjson on 3.11) serialize/parse cycles, from_json_data == original (strict key, NaNs identified), hashable, to_code identical.",
         "assumptions": TRUST + ["orjson exists only on the 3.11 host, where only hand-built CodeData can be used (from_code cannot run there)"],
         "required_reach": {"quick": ["cycle-ok:json", "cycle-ok:json-utf8", "cycle-ok:orjson@3.11", "encodes-identically"]},
     },
@@ -151,9 +151,9 @@ PROPS = {
     "C03": {
         "level": "exploration",
         "interpreters": PRODUCERS,
-        "rule": "hand-built CodeData, complete products: block graphs (2-4 blocks x NOP paddings {0,1,b-1,b} (thorough {0,1,b-2..b+1}) around the 1->2 unit jump boundary b of the running interpreter x one jump from {JUMP_ABSOLUTE, POP_JUMP_IF_FALSE -> any block; JUMP_FORWARD, FOR_ITER -> later block}; 3 blocks x all pairs of jumps from different blocks; thorough: paddings around the 2->3 unit boundary); operand tables of 0,1,2,255,256,257,65537 (thorough 65535..65537) names/constants/locals/cells with and without repeated uses, free-variable operands after 0..257 cell variables (referenced by instructions, or listed only as additional args) followed by a jump; all assignments of 8 line values (+None on 3.10) to 3 line slots x first line {1,3,200} x short/long middle run; all ordered pairs of S-CONST loaded by two LOAD_CONST; all ordered pairs of 11 hand-built nested functions `lambda: v` (v with colliding hashes or == across types) loaded as two code constants; all signature shapes x function type x docstring {None, plain, lone surrogate} x body x free variable; override consistency: 3 operands over 2 values x overrides {None,0,1,2,5}^3 x 4 table kinds; single edits (delete each instruction, clear additional args, clear each override) of every decoded object of a spread of 1500 (thorough 15000) grammar programs. Oracle: to_code terminates; CPython's reading of the result (R-DIS, PyCode_Addr2Line, header, inspect) equals the data instruction by instruction; decoding again equals the input up to normalization; inconsistent overrides raise or stay in-table with the given values.",
+        "rule": "hand-built CodeData, complete products: block graphs (2-4 blocks x NOP paddings {0,1,b-1,b} (thorough {0,1,b-2..b+1}) around the 1->2 unit jump boundary b of the running interpreter x one jump from {JUMP_ABSOLUTE, POP_JUMP_IF_FALSE -> any block; JUMP_FORWARD, FOR_ITER -> later block}; 3 blocks x all pairs of jumps from different blocks; thorough: paddings around the 2->3 unit boundary); chains of 3/12/20/40 absolute jumps whose targets sit 1,2,3,... instructions below the boundary (every layout pass grows one more jump); operand tables of 0,1,2,255,256,257,65537 (thorough 65535..65537) names/constants/locals/cells with and without repeated uses, free-variable operands after 0..257 cell variables (referenced by instructions, or listed only as additional args) followed by a jump; all assignments of 8 line values (+None on 3.10) to 3 line slots x first line {1,3,200} x short/long middle run; all ordered pairs of S-CONST loaded by two LOAD_CONST; all ordered pairs of 11 hand-built nested functions `lambda: v` (v with colliding hashes or == across types) loaded as two code constants; all signature shapes x function type x docstring {None, plain, lone surrogate} x body x free variable; override consistency: 3 operands over 2 values x overrides {None,0,1,2,5}^3 x 4 table kinds and two pairs of ==-but-distinct constants (0.0/-0.0, 1/True); single edits (delete each instruction, clear additional args, clear each override) of every decoded object of a spread of 1500 (thorough 15000) grammar programs. Oracle: to_code terminates; CPython's reading of the result (R-DIS, PyCode_Addr2Line, header, inspect) equals the data instruction by instruction; decoding again equals the input up to normalization; inconsistent overrides raise or stay in-table with the given values.",
         "assumptions": TRUST + ["on <=3.9 line_number=None is outside the alphabet (lnotab cannot say 'no line'; to_code refuses it)"],
-        "required_reach": {"quick": ["jump-units:1", "jump-units:2", "operand-units:2", "operand-units:3", "encodes-ok:G1", "encodes-ok:G2", "encodes-ok:T", "encodes-ok:LN", "encodes-ok:SG", "encodes-ok:ED", "encodes-ok:NP", "inconsistent-overrides-refused", "overrides-accepted-consistent", "const-pair-ok:same", "const-pair-ok:distinct"], "thorough": ["jump-units:3"]},
+        "required_reach": {"quick": ["jump-units:1", "jump-units:2", "operand-units:2", "operand-units:3", "encodes-ok:G1", "encodes-ok:G2", "encodes-ok:GC", "encodes-ok:T", "encodes-ok:LN", "encodes-ok:SG", "encodes-ok:ED", "encodes-ok:NP", "inconsistent-overrides-refused", "overrides-accepted-consistent", "const-pair-ok:same", "const-pair-ok:distinct"], "thorough": ["jump-units:3"]},
     },
     "C06": {
         "level": "model_checking",
